@@ -1,1 +1,2 @@
-//! Harness contracts for C05.
+//! Harness contracts for C05: none needed.  The asset token is `contracts::ft::ft_base::FtBase`
+//! and the vault is the example `examples::fungible_vault::contract::ExampleContract`.
